@@ -3,6 +3,7 @@ package meta_leaseset
 
 import (
 	"github.com/go-i2p/common/key_certificate"
+	"github.com/go-i2p/common/offline_signature"
 	"github.com/go-i2p/crypto/types"
 	"github.com/samber/oops"
 )
@@ -74,6 +75,14 @@ func (mls *MetaLeaseSet) Verify() error {
 // Otherwise, the Destination's signing public key is returned.
 func (mls *MetaLeaseSet) signingPublicKeyForVerification() (types.SigningPublicKey, error) {
 	if mls.HasOfflineKeys() && mls.offlineSignature != nil {
+		// The transient key only counts when the identity's own key authorised it.
+		identityKey, err := mls.destination.SigningPublicKey()
+		if err != nil {
+			return nil, oops.Errorf("failed to get the identity's signing public key: %w", err)
+		}
+		if err := requireAuthorisedTransientKey(mls.offlineSignature, identityKey); err != nil {
+			return nil, err
+		}
 		// Use transient signing public key from offline signature
 		transientKeyBytes := mls.offlineSignature.TransientPublicKey()
 		transientSigType := mls.offlineSignature.TransientSigType()
@@ -90,4 +99,18 @@ func (mls *MetaLeaseSet) signingPublicKeyForVerification() (types.SigningPublicK
 		return nil, oops.Errorf("failed to get signing public key from Destination: %w", err)
 	}
 	return spk, nil
+}
+
+// requireAuthorisedTransientKey checks that the offline block (expires, transient type,
+// transient key) carries a valid signature by the identity's own signing key. Without this a
+// structure signed by any transient key accompanied by a meaningless offline signature verified.
+func requireAuthorisedTransientKey(o *offline_signature.OfflineSignature, identityKey types.SigningPublicKey) error {
+	verifier, err := identityKey.NewVerifier()
+	if err != nil {
+		return oops.Errorf("failed to create verifier for the offline signature: %w", err)
+	}
+	if err := verifier.Verify(o.SignedData(), o.Signature()); err != nil {
+		return oops.Errorf("offline signature is not valid under the identity's signing key: %w", err)
+	}
+	return nil
 }
